@@ -360,8 +360,25 @@ def _p_shapes(blocks, st, top):
         elif k == "tbl":
             ncol = max(len(r) for r in b["rows"])
             rows = []
-            for row in b["rows"]:
-                cells = "".join(f'<a:tc><a:txBody><a:bodyPr/><a:lstStyle/>{_a_paras(c["blocks"], st)}</a:txBody><a:tcPr/></a:tc>' for c in row)
+            merged = bool(st.get("merged_cells"))
+            for ri, row in enumerate(b["rows"]):
+                # merged_cells: an empty cell right of another cell is written as the hMerge continuation of a gridSpan cell, an empty first-column cell below
+                # another row as the vMerge continuation of a rowSpan cell - the way PowerPoint stores merged cells (the grid keeps all r x c <a:tc> elements)
+                attrs = [""] * len(row)
+                if merged:
+                    cont = [not c["blocks"] and j > 0 for j, c in enumerate(row)]
+                    for j, c in enumerate(row):
+                        if cont[j]:
+                            attrs[j] = ' hMerge="1"'
+                        else:
+                            n = 1
+                            while j + n < len(row) and cont[j + n]:
+                                n += 1
+                            if n > 1:
+                                attrs[j] = f' gridSpan="{n}"'
+                            elif not c["blocks"] and j == 0 and ri > 0:
+                                attrs[j] = ' vMerge="1"'
+                cells = "".join(f'<a:tc{attrs[j]}><a:txBody><a:bodyPr/><a:lstStyle/>{_a_paras(c["blocks"], st)}</a:txBody><a:tcPr/></a:tc>' for j, c in enumerate(row))
                 rows.append(f'<a:tr h="370840">{cells}</a:tr>')
             out.append(f'<p:graphicFrame><p:nvGraphicFramePr><p:cNvPr id="{sid}" name="Table {sid}"/><p:cNvGraphicFramePr><a:graphicFrameLocks noGrp="1"/></p:cNvGraphicFramePr><p:nvPr/></p:nvGraphicFramePr>'
                        f'<p:xfrm><a:off x="{500000 + sid_off}" y="{y}"/><a:ext cx="8000000" cy="350000"/></p:xfrm>'
@@ -425,7 +442,7 @@ def render_pptx(doc, *, images=None, opts=None) -> bytes:
                 target = {"parent": "../media/" + name, "absolute": "/ppt/media/" + name, "relative": "../media/./" + name}[form]
                 rid_cache[idx] = rid("image", target)
             return rid_cache[idx]
-        st = {"sid": 1, "y": 0, "has_title": False, "rid": rid, "img_rid": img_rid, "images": images, "layout": opts.get("layout")}
+        st = {"sid": 1, "y": 0, "has_title": False, "rid": rid, "img_rid": img_rid, "images": images, "layout": opts.get("layout"), "merged_cells": opts.get("merged_cells")}
         shapes = _p_shapes(u["blocks"], st, True)
         if doc.get("footer") is not None:
             st["sid"] += 1
